@@ -150,7 +150,7 @@ def parse_terse(out):
     return res
 
 
-def run_kani(workdir, harnesses, target, timeout, extra=(), jobs=None, harness_timeout=None, exact=True):
+def run_kani(workdir, harnesses, target, timeout, extra=(), jobs=None, harness_timeout=None, exact=True, mem_gb=12):
     terse = bool(jobs)
     cmd = ['cargo', 'kani', '-Z', 'function-contracts', '-Z', 'stubbing', '-Z', 'unstable-options', '--output-format', 'terse' if terse else 'regular']
     if exact:
@@ -163,18 +163,44 @@ def run_kani(workdir, harnesses, target, timeout, extra=(), jobs=None, harness_t
         cmd += ['--harness-timeout', '%ds' % harness_timeout]
     cmd += list(extra)
     t0 = time.time()
+    import tempfile
+    import threading
+    outf = tempfile.TemporaryFile(mode='w+')
+    p = subprocess.Popen(cmd, cwd=workdir, env=kani_env(target), stdout=outf, stderr=subprocess.STDOUT, text=True, start_new_session=True)
+    killed = []
+    stop = threading.Event()
+
+    def watchdog():
+        # RSS cap per cbmc process: a solver that needs more is a tool limit (undecided), never an alarm
+        while not stop.wait(5):
+            try:
+                ps = subprocess.run(['ps', '-eo', 'pid,rss,sid,comm'], stdout=subprocess.PIPE, text=True).stdout.splitlines()[1:]
+            except Exception:
+                continue
+            for line in ps:
+                f = line.split()
+                if len(f) >= 4 and f[3] in ('cbmc', 'kani-compiler', 'goto-instrument') and f[2] == str(p.pid):
+                    if int(f[1]) > mem_gb * 1024 * 1024:
+                        killed.append(f[0])
+                        subprocess.run(['kill', '-9', f[0]])
+    th = threading.Thread(target=watchdog, daemon=True)
+    th.start()
+    timed_out = False
     try:
-        p = subprocess.run(cmd, cwd=workdir, env=kani_env(target), stdout=subprocess.PIPE, stderr=subprocess.STDOUT, text=True, timeout=timeout)
-        out = p.stdout
-        rc = p.returncode
-        timed_out = False
-    except subprocess.TimeoutExpired as e:
-        out = (e.stdout or b'').decode('utf-8', 'replace') if isinstance(e.stdout, bytes) else (e.stdout or '')
-        rc = -9
+        rc = p.wait(timeout=timeout)
+    except subprocess.TimeoutExpired:
         timed_out = True
-        subprocess.run(['pkill', '-x', 'cbmc'])
-        subprocess.run(['pkill', '-x', 'kani-compiler'])
-    return dict(cmd=' '.join(cmd), out=out, rc=rc, wall=time.time() - t0, timed_out=timed_out, terse=terse)
+        rc = -9
+        try:
+            os.killpg(p.pid, 9)
+        except Exception:
+            pass
+        p.wait()
+    stop.set()
+    outf.seek(0)
+    out = outf.read()
+    outf.close()
+    return dict(cmd=' '.join(cmd), out=out, rc=rc, wall=time.time() - t0, timed_out=timed_out, terse=terse, mem_killed=killed)
 
 
 def run_units(unit_ids, repo, scratch, tier, pid):
@@ -197,9 +223,10 @@ def run_units(unit_ids, repo, scratch, tier, pid):
     if not allh:
         return dict(units=[], wall=0, cmds=[])
     htimeout = max([u.get('timeout', 300) for (_, u, _) in todo]) * (3 if tier == 'thorough' else 1)
-    jobs = min(15, max(2, len(allh) * 2))
+    mem_gb = max([u.get('mem_gb', 4) for (_, u, _) in todo])
+    jobs = min(14, max(2, len(allh) * 2), max(2, int(52 / mem_gb)))
     rounds = (2 * len(allh) + jobs - 1) // jobs
-    r = run_kani(os.path.join(work, 'guard'), allh, target, 240 + htimeout * rounds + 120, jobs=jobs, harness_timeout=htimeout)
+    r = run_kani(os.path.join(work, 'guard'), allh, target, 240 + htimeout * rounds + 120, jobs=jobs, harness_timeout=htimeout, mem_gb=mem_gb)
     cmds.append(r['cmd'])
     os.makedirs(os.path.join(VERIF, 'evidence', 'kani'), exist_ok=True)
     with open(os.path.join(VERIF, 'evidence', 'kani', '%s-%s.log' % (pid, tier)), 'w') as f:
